@@ -259,7 +259,7 @@ pub fn run_ccase(case: &CCase, strategy: Strategy, log_locks: bool, budget: u64)
   let case = case.clone();
   arx_vstd::collections::REVERSE.store(false, std::sync::atomic::Ordering::Relaxed);
   rt::run(Config { strategy, budget, writer_pref: true, log_locks }, move || {
-    let w: W = Arc::new(Mutex::new(World { cur: 0, in_cur: 0, log: vec![], regs: vec![vec![]; 4], inner: vec![], sbj: vec![], conn: vec![], tok_ops: Arc::new(()) }));
+    let w: W = Arc::new(Mutex::new(World { cur: 0, in_cur: 0, log: vec![], regs: vec![vec![]; 4], inner: vec![], sbj: vec![], conn: vec![], tok_ops: Arc::new(()), slot1: None }));
     let sbjs: Vec<Sbj> = case.sbj.iter().map(|k| Sbj::new(k)).collect();
     w.lock().unwrap().sbj = sbjs;
     let mut conns = vec![];
